@@ -132,6 +132,10 @@ def entry_with(runs, i=0):
                              minver_or_counter=last, options_1=tuple(r1), options_2=tuple(r2))
 
 
+_OTHER = hdr.SOMEIPSDHeader(entries=(hdr.SOMEIPSDEntry(sd_type=T.FindService, service_id=0x4321, instance_id=1, major_version=1, ttl=9,
+                                                       minver_or_counter=7),), flag_reboot=False).assign_option_indexes()
+
+
 def check_message(entries, flags, where):
     """entries: resolved library entries.  -> list of violation tuples"""
     reboot, unicast, unknown = flags
@@ -139,7 +143,12 @@ def check_message(entries, flags, where):
     msg = hdr.SOMEIPSDHeader(entries=tuple(entries), flag_reboot=reboot, flag_unicast=unicast, flags_unknown=unknown)
     try:
         assigned = msg.assign_option_indexes()
-        data = bytes(assigned.build())
+        raw = assigned.build()
+        data = bytes(raw)
+        _OTHER.build()  # encoding another message must not change what build() returned for this one
+        if bytes(raw) != data:
+            out.append(("roundtrip", "encoding-changed-by-a-later-encode", "the object returned by build() changed when another "
+                        "message was encoded", where))
     except Exception as e:  # noqa: BLE001
         return [("roundtrip", "build-raises", f"{type(e).__name__}: {e}", where)]
     try:
@@ -265,6 +274,19 @@ def layer3_fields(args):
         n += 1
         for v in check_message([e], FLAGS[n % len(FLAGS)], dict(layer=3, option_kinds=(a, b))):
             viols.append(v)
+    # configuration options: every item length 1..255 (a length byte is an arbitrary byte: 0x3d is '=', 0x00 the terminator),
+    # as the only item, behind an item without a value, and in front of one
+    base = dict(sd_type=T.OfferService, service_id=1, instance_id=2, major_version=3, ttl=4, minver_or_counter=5)
+    for ln in range(1, 256):
+        variants = [(("k" * ln, None),), (("key", None), ("x" * ln, None)), (("x" * ln, None), ("key", None)),
+                    (("key", None), ("y", "v" * (ln - 2))) if ln >= 3 else (("key", ""), ("y", None))]
+        for cfgs in variants:
+            e = hdr.SOMEIPSDEntry(**base, options_1=(hdr.SOMEIPSDConfigOption(configs=cfgs),))
+            n += 1
+            for v in check_message([e], FLAGS[n % len(FLAGS)], dict(layer=3, config_item_length=ln, items=len(cfgs))):
+                viols.append(v)
+        if len(viols) > 40:
+            break
     # options that differ in nothing but their kind (or their protocol): in one entry, in two entries of one message,
     # and in two successive messages
     twins = twin_pool()
